@@ -188,7 +188,18 @@ def nested_subtype_spread(g):
     return out
 
 
+def conditional_typename(g):
+    cached = getattr(g, "_f31", None)
+    if cached is None:
+        import re
+        cached = bool(re.search(r"__typename\s*@(skip|include)", g.sc.queries))
+        g._f31 = cached
+    return cached
+
+
 def finding_class(g, mp, opname, path):
+    if path and path[-1] == "__typename" and conditional_typename(g):
+        return "F31-conditional-typename"
     if in_merge_class(mp, opname, path or []):
         return "F27-unmerged-composite-field"
     if nested_subtype_spread(g):
